@@ -307,7 +307,55 @@ def _index_instances(tier):
 
 TIER_PARAMS = {'quick': {'conc_cap': 300}, 'thorough': {'conc_cap': 600}}
 
+# ------------------------------------------------------------------ H15.6 every version section resolves names through ITS OWN linked string table
+def h_own_strtab(ctx):
+    """a file whose version definition and version requirement sections link to two DIFFERENT string tables (sh_link of each section designates
+    its own table), fetched in either order, repeatedly: file and version names come from the table each section links to"""
+    from harness.elfkit import Image, open_elf
+    cfg = ctx.cfg
+    cls, little, order = cfg['elfclass'], cfg['little'], cfg['order']
+    img = Image(cls, little, machine=62)
+    img.section('', sh_type=0)
+    ta = [0] + [ord(c) for c in 'libA.so'] + [0] + [ord(c) for c in 'VER_A'] + [0]        # 1:'libA.so' 9:'VER_A'
+    tb = [0] + [ord(c) for c in 'libBB.s'] + [0] + [ord(c) for c in 'VER_B'] + [0]        # same offsets, other strings
+    oa, ob = img.blob(ta), img.blob(tb)
+    hd = ctx.uint('vd_hash', 32)
+    hn = ctx.uint('vna_hash', 32)
+    vd = L.encode('VERDEF', cls, little, dict(vd_version=1, vd_ndx=2, vd_cnt=1, vd_hash=hd, vd_aux=20, vd_next=0)) + L.encode('VERDAUX', cls, little, dict(vda_name=9))
+    vn = L.encode('VERNEED', cls, little, dict(vn_version=1, vn_cnt=1, vn_file=1, vn_aux=16, vn_next=0)) + L.encode('VERNAUX', cls, little, dict(vna_hash=hn, vna_other=3, vna_name=9))
+    od, on = img.blob(vd, align=4), img.blob(vn, align=4)
+    img.section('.strA', sh_type=3, sh_offset=oa, sh_size=len(ta))                                   # 1
+    img.section('.strB', sh_type=3, sh_offset=ob, sh_size=len(tb))                                   # 2
+    img.section('.gnu.version_d', sh_type=0x6ffffffd, sh_offset=od, sh_size=len(vd), sh_link=1, sh_info=1)      # 3
+    img.section('.gnu.version_r', sh_type=0x6ffffffe, sh_offset=on, sh_size=len(vn), sh_link=2, sh_info=1)      # 4
+    img.add_shstrtab()
+    elf = open_elf(ctx, img.build())
+
+    def defs():
+        sec = elf.get_section(3) if cfg.get('by') != 'name' else elf.get_section_by_name('.gnu.version_d')
+        return [(v['vd_hash'], [a.name for a in it]) for v, it in sec.iter_versions()], sec.get_version(2)
+
+    def needs():
+        sec = elf.get_section(4) if cfg.get('by') != 'name' else elf.get_section_by_name('.gnu.version_r')
+        return [(v.name, [(a.name, a['vna_hash']) for a in it]) for v, it in sec.iter_versions()], sec.get_version(3)
+    if order == 'defs-first':
+        d, n = defs(), needs()
+    elif order == 'needs-first':
+        n, d = needs(), defs()
+    else:
+        list(elf.iter_sections())
+        n, d = needs(), defs()
+    ctx.outcome('ok')
+    ctx.check_eq('own-strtab/%s/definitions' % order, d[0], [(hd, ['VER_A'])])
+    ctx.check_eq('own-strtab/%s/requirements' % order, n[0], [('libBB.s', [('VER_B', hn)])])
+    ctx.check('own-strtab/%s/get_version/def' % order, d[1] is not None and [a.name for a in d[1][1]] == ['VER_A'])
+    ctx.check('own-strtab/%s/get_version/need' % order, n[1] is not None and (n[1][0].name, n[1][1].name) == ('libBB.s', 'VER_B'))
+    ctx.check_eq('own-strtab/%s/again' % order, [defs()[0], needs()[0]], [d[0], n[0]])
+
+
 HARNESSES = [
+    H('h15_6_own_string_table', h_own_strtab, lambda tier: [dict(elfclass=c, little=l, order=o, by=b) for c, l in ((64, True), (32, False)) for o in ('defs-first', 'needs-first', 'after-enumeration') for b in ('index', 'name')], expect=('ok',),
+      desc='version definition and version requirement sections of one file linked to two DIFFERENT string tables, fetched by index or by name in either order, after a full enumeration, repeatedly: names come from the table each section links to'),
     H('h15_0_version_section_kinds', C1.h_kinds, lambda tier: [c for c in C1._kinds_instances(tier) if c['sh_type'] in (0x6ffffffd, 0x6ffffffe, 0x6fffffff)], expect=('ok',),
       desc='sections of the three version section types are handed out as GNUVerDefSection / GNUVerNeedSection / GNUVerSymSection in every processor and OS ABI context, Solaris objects included (harness shared with C01)'),
     H('h15_5_link_0xffff', C1.h_many_sections, lambda tier: [dict(elfclass=64, little=False, n=0x10001, links_first=True)], expect=('ok',), decoy=-1,
